@@ -301,6 +301,18 @@ def commitReached (H : HashFn) (ci : Cmds.CommitIn) (l : Loaded) : Bool :=
 
 def setHead (w : World) (b : Bytes) : World := { w with head := some (Head.render b) }
 
+/-- what `commit()` writes once the commit object `(id, data)` is made: the trees, the object, the branch, the logs, HEAD -/
+def commitWrite (H : HashFn) (w : World) (l : Loaded) (id data msg : Bytes) (tz : Int) (ts : List Int) : World × Out :=
+  let w1 := putObj (putObjs w (TreeBuild.writeTree H l.idx).writes.reverse) id (Obj.encode .commit data)
+  let exists_ := Refs.exists_ l.refs l.ref
+  if !exists_ && !Refs.validName l.ref then (w1, .err)
+  else
+    let frm := if exists_ then l.headCommit.map (·.1) else none
+    let w2 := { w1 with heads := aset w1.heads l.ref (hashStr id) }
+    let line := recLine l .commit frm (some id) (clock ts 1) tz msg
+    let w3 := appendLogBranch (appendLogHead w2 line) l.ref line
+    if w3.head.isNone then (w3, .err) else (setHead w3 l.ref, .ok none)
+
 def commitCmd (H : HashFn) (w : World) (l : Loaded) (msg : Bytes) (tz : Int) (ts : List Int) : World × Out :=
   let snapR : Res (Option (List Entry)) :=
     if l.headCommit.isNone then .ok none else (headSnap H w l).map some
@@ -309,22 +321,50 @@ def commitCmd (H : HashFn) (w : World) (l : Loaded) (msg : Bytes) (tz : Int) (ts
   | .err => if !Config.isUserSet l.loc l.glob || w.heads.isEmpty then (w, .unsupported) else (w, .err)
   | .ok snap =>
     let ci := commitIn w l snap msg tz (clock ts 0)
-    let trees := (TreeBuild.writeTree H l.idx).writes
     match Cmds.commitCmd H ci with
     | .crash => (w, .crash)
-    | .err => if commitReached H ci l then (putObjs w trees.reverse, .err) else (w, .err)
-    | .ok (id, data) =>
-      let w1 := putObj (putObjs w trees.reverse) id (Obj.encode .commit data)
-      let exists_ := Refs.exists_ l.refs l.ref
-      if !exists_ && !Refs.validName l.ref then (w1, .err)
-      else
-        let frm := if exists_ then l.headCommit.map (·.1) else none
-        let w2 := { w1 with heads := aset w1.heads l.ref (hashStr id) }
-        let line := recLine l .commit frm (some id) (clock ts 1) tz msg
-        let w3 := appendLogBranch (appendLogHead w2 line) l.ref line
-        if w3.head.isNone then (w3, .err) else (setHead w3 l.ref, .ok none)
+    | .err => if commitReached H ci l then (putObjs w (TreeBuild.writeTree H l.idx).writes.reverse, .err) else (w, .err)
+    | .ok (id, data) => commitWrite H w l id data msg tz ts
 
 /-! ### `branch`, `switch`, `update-ref` -/
+
+/-- `branch <n>`: a new branch at HEAD's commit -/
+def branchCreate (w : World) (l : Loaded) (n : Bytes) (tz : Int) (ts : List Int) : World × Out :=
+  match l.headCommit with
+  | none => (w, .err)
+  | some (id, _) =>
+    match Refs.add l.refs n id with
+    | .err => (w, .err)
+    | .crash => (w, .crash)
+    | .ok _ =>
+      let w1 := { w with heads := aset w.heads n (hashStr id) }
+      (appendLogBranch w1 n (recLine l .branch none (some id) (clock ts 0) tz (asc "Created from " ++ l.ref)), .ok none)
+
+/-- `branch -r <new>`: the current branch under a new name (new file, HEAD, old file removed, logs) -/
+def branchRename (w : World) (l : Loaded) (ren : Bytes) (tz : Int) (ts : List Int) : World × Out :=
+  match Refs.rename l.refs l.ref ren, l.headCommit with
+  | .err, _ => (w, .err)
+  | .crash, _ => (w, .crash)
+  | .ok _, none => (w, .unsupported)
+  | .ok _, some (id, _) =>
+    if w.head.isNone || (aget w.logHeads l.ref).isNone then (w, .unsupported) else
+    let w1 := setHead { w with heads := adel (aset w.heads ren (hashStr id)) l.ref } ren
+    let m1 := asc "renamed refs/heads/" ++ l.ref ++ asc " to refs/heads/" ++ ren
+    let w2 := appendLogHead (appendLogHead w1 (recLine l .branch (some id) none (clock ts 0) tz m1))
+                (recLine l .branch none (some id) (clock ts 1) tz m1)
+    let w3 := { w2 with logHeads := adel w2.logHeads l.ref }
+    let w4 := appendLogBranch w3 ren (recLine l .branch none (some id) (clock ts 2) tz (asc "Created from " ++ l.ref))
+    (appendLogBranch w4 ren (recLine l .branch (some id) (some id) (clock ts 3) tz
+        (asc "renamed refs/heads/" ++ l.ref ++ asc " refs/heads/" ++ ren)), .ok none)
+
+/-- `branch -d <name>` -/
+def branchDelete (w : World) (l : Loaded) (del : Bytes) : World × Out :=
+  match Refs.delete l.refs l.ref del with
+  | .err => (w, .err)
+  | .crash => (w, .crash)
+  | .ok _ =>
+    if (aget w.logHeads del).isNone then (w, .unsupported)
+    else ({ w with heads := adel w.heads del, logHeads := adel w.logHeads del }, .ok none)
 
 def branchCmd (w : World) (l : Loaded) (args : List Bytes) (list : Bool) (ren del : Bytes) (tz : Int) (ts : List Int) : World × Out :=
   let valid := (args.length == 1 && !list && ren.isEmpty && del.isEmpty) || (args.isEmpty && list && ren.isEmpty && del.isEmpty) ||
@@ -332,41 +372,36 @@ def branchCmd (w : World) (l : Loaded) (args : List Bytes) (list : Bool) (ren de
   if !valid then (w, .err)
   else
     match args with
-    | [n] =>
-      match l.headCommit with
-      | none => (w, .err)
-      | some (id, _) =>
-        match Refs.add l.refs n id with
-        | .err => (w, .err)
-        | .crash => (w, .crash)
-        | .ok _ =>
-          let w1 := { w with heads := aset w.heads n (hashStr id) }
-          (appendLogBranch w1 n (recLine l .branch none (some id) (clock ts 0) tz (asc "Created from " ++ l.ref)), .ok none)
+    | [n] => branchCreate w l n tz ts
     | _ =>
       if list then
         (w, .ok (some ((l.refs.map fun b => (if b.1 == l.ref then asc "* " else []) ++ b.1 ++ [10]).flatten)))
-      else if !ren.isEmpty then
-        match Refs.rename l.refs l.ref ren, l.headCommit with
-        | .err, _ => (w, .err)
-        | .crash, _ => (w, .crash)
-        | .ok _, none => (w, .unsupported)
-        | .ok _, some (id, _) =>
-          if w.head.isNone || (aget w.logHeads l.ref).isNone then (w, .unsupported) else
-          let w1 := setHead { w with heads := adel (aset w.heads ren (hashStr id)) l.ref } ren
-          let m1 := asc "renamed refs/heads/" ++ l.ref ++ asc " to refs/heads/" ++ ren
-          let w2 := appendLogHead (appendLogHead w1 (recLine l .branch (some id) none (clock ts 0) tz m1))
-                      (recLine l .branch none (some id) (clock ts 1) tz m1)
-          let w3 := { w2 with logHeads := adel w2.logHeads l.ref }
-          let w4 := appendLogBranch w3 ren (recLine l .branch none (some id) (clock ts 2) tz (asc "Created from " ++ l.ref))
-          (appendLogBranch w4 ren (recLine l .branch (some id) (some id) (clock ts 3) tz
-              (asc "renamed refs/heads/" ++ l.ref ++ asc " refs/heads/" ++ ren)), .ok none)
-      else
-        match Refs.delete l.refs l.ref del with
-        | .err => (w, .err)
-        | .crash => (w, .crash)
-        | .ok _ =>
-          if (aget w.logHeads del).isNone then (w, .unsupported)
-          else ({ w with heads := adel w.heads del, logHeads := adel w.logHeads del }, .ok none)
+      else if !ren.isEmpty then branchRename w l ren tz ts
+      else branchDelete w l del
+
+/-- `switch <n>` -/
+def switchTo (H : HashFn) (w : World) (l : Loaded) (n : Bytes) (tz : Int) (ts : List Int) : World × Out :=
+  if !Refs.exists_ l.refs n || w.head.isNone then (w, .err)
+  else
+    match (Refs.lookup l.refs n).bind fun id => (commitAt H w id).map fun _ => id with
+    | none => (w, .unsupported)
+    | some id =>
+      (appendLogHead (setHead w n) (recLine l .checkout (some id) (some id) (clock ts 0) tz
+        (asc "moving from " ++ l.ref ++ asc " to " ++ n)), .ok none)
+
+/-- `switch -c <n>` -/
+def switchCreate (w : World) (l : Loaded) (create : Bytes) (tz : Int) (ts : List Int) : World × Out :=
+  match l.headCommit with
+  | none => (w, .err)
+  | some (id, _) =>
+    match Refs.add l.refs create id with
+    | .err => (w, .err)
+    | .crash => (w, .crash)
+    | .ok _ =>
+      if w.head.isNone then (w, .unsupported) else
+      let w1 := setHead { w with heads := aset w.heads create (hashStr id) } create
+      let w2 := appendLogHead w1 (recLine l .checkout (some id) (some id) (clock ts 0) tz (asc "moving from " ++ l.ref ++ asc " to " ++ create))
+      (appendLogBranch w2 create (recLine l .branch none (some id) (clock ts 1) tz (asc "Created from " ++ l.ref)), .ok none)
 
 def switchCmd (H : HashFn) (w : World) (l : Loaded) (args : List Bytes) (create : Bytes) (tz : Int) (ts : List Int) : World × Out :=
   if args.length ≥ 2 then (w, .err)
@@ -374,32 +409,21 @@ def switchCmd (H : HashFn) (w : World) (l : Loaded) (args : List Bytes) (create 
   else if !create.isEmpty && !args.isEmpty then (w, .err)
   else
     match args with
-    | [n] =>
-      if !Refs.exists_ l.refs n || w.head.isNone then (w, .err)
-      else
-        match (Refs.lookup l.refs n).bind fun id => (commitAt H w id).map fun _ => id with
-        | none => (w, .unsupported)
-        | some id =>
-          (appendLogHead (setHead w n) (recLine l .checkout (some id) (some id) (clock ts 0) tz
-            (asc "moving from " ++ l.ref ++ asc " to " ++ n)), .ok none)
-    | _ =>
-      match l.headCommit with
-      | none => (w, .err)
-      | some (id, _) =>
-        match Refs.add l.refs create id with
-        | .err => (w, .err)
-        | .crash => (w, .crash)
-        | .ok _ =>
-          if w.head.isNone then (w, .unsupported) else
-          let w1 := setHead { w with heads := aset w.heads create (hashStr id) } create
-          let w2 := appendLogHead w1 (recLine l .checkout (some id) (some id) (clock ts 0) tz (asc "moving from " ++ l.ref ++ asc " to " ++ create))
-          (appendLogBranch w2 create (recLine l .branch none (some id) (clock ts 1) tz (asc "Created from " ++ l.ref)), .ok none)
+    | [n] => switchTo H w l n tz ts
+    | _ => switchCreate w l create tz ts
 
 /-- `branchRegexp = "refs/heads/.+"`, unanchored -/
 def isBranchPath (a : Bytes) : Bool :=
   match Bytes.indexOf (asc "refs/heads/") a with
   | none => false
   | some i => match a.drop (i + 11) with | c :: _ => c != 10 | [] => false
+
+/-- `update-ref` once the id is known to name a stored commit object with data `d` -/
+def updateRefTo (w : World) (l : Loaded) (b id d : Bytes) : World × Out :=
+  if !Refs.exists_ l.refs b then (w, .err)
+  else if w.head.isNone then ({ w with heads := aset w.heads b (hashStr id) }, .err)
+  else if (Commit.parse d).isNone then (w, .unsupported)
+  else (setHead { w with heads := aset w.heads b (hashStr id) } b, .ok none)
 
 def updateRefCmd (H : HashFn) (w : World) (l : Loaded) (args : List Bytes) : World × Out :=
   match args with
@@ -412,16 +436,30 @@ def updateRefCmd (H : HashFn) (w : World) (l : Loaded) (args : List Bytes) : Wor
       | some id =>
         if hs != hashStr id then (w, .unsupported) else      -- upper-case digits name another file
         match Store.get H (store w) id with
-        | .ok (.commit, d) =>
-          let b := (Bytes.split1 47 path).getLast?.getD []
-          if !Refs.exists_ l.refs b then (w, .err)
-          else if w.head.isNone then ({ w with heads := aset w.heads b (hashStr id) }, .err)
-          else if (Commit.parse d).isNone then (w, .unsupported)
-          else (setHead { w with heads := aset w.heads b (hashStr id) } b, .ok none)
+        | .ok (.commit, d) => updateRefTo w l ((Bytes.split1 47 path).getLast?.getD []) id d
         | _ => (w, .err)
   | _ => (w, .err)
 
 /-! ### `reset` -/
+
+/-- `reset` once the target `t` is known: the branch, the logs, then (mixed, hard) the staging area, then (hard) the files -/
+def resetTo (H : HashFn) (w : World) (l : Loaded) (s h : Bool) (arg t prev : Bytes) (tz : Int) (ts : List Int) : World × Out :=
+  match commitAt H w t with
+  | none => (w, .unsupported)
+  | some _ =>
+    let w1 := { w with heads := aset w.heads l.ref (hashStr t) }
+    let line := recLine l .reset (some prev) (some t) (clock ts 0) tz (asc "moving to " ++ arg)
+    let w2 := appendLogBranch (appendLogHead w1 line) l.ref line
+    if s then (w2, .ok none)
+    else
+      match Cmds.resetEntries H (store w2) treeDepth t with
+      | .ok es =>
+        let w3 := { w2 with index := some es }
+        if !h then (w3, .ok none)
+        else
+          let r := writeEntries H w3 es
+          (r.2.2, if r.1 then .ok none else if r.2.1 then .err else .unsupported)
+      | _ => (w2, .unsupported)
 
 def resetCmd (H : HashFn) (w : World) (l : Loaded) (soft mixed hard : Bool) (args : List Bytes) (tz : Int) (ts : List Int) : World × Out :=
   match Cmds.modeOf soft mixed hard, args with
@@ -436,23 +474,7 @@ def resetCmd (H : HashFn) (w : World) (l : Loaded) (soft mixed hard : Bool) (arg
           match l.headCommit with
           | none => (w, .err)
           | some (prev, _) =>
-            if !Refs.exists_ l.refs l.ref then (w, .err) else
-            match commitAt H w t with
-            | none => (w, .unsupported)
-            | some _ =>
-              let w1 := { w with heads := aset w.heads l.ref (hashStr t) }
-              let line := recLine l .reset (some prev) (some t) (clock ts 0) tz (asc "moving to " ++ arg)
-              let w2 := appendLogBranch (appendLogHead w1 line) l.ref line
-              if s then (w2, .ok none)
-              else
-                match Cmds.resetEntries H (store w2) treeDepth t with
-                | .ok es =>
-                  let w3 := { w2 with index := some es }
-                  if !h then (w3, .ok none)
-                  else
-                    let r := writeEntries H w3 es
-                    (r.2.2, if r.1 then .ok none else if r.2.1 then .err else .unsupported)
-                | _ => (w2, .unsupported)
+            if !Refs.exists_ l.refs l.ref then (w, .err) else resetTo H w l s h arg t prev tz ts
         | _ => (w, .err)
     | _, _ => (w, .err)
   | _, _ => (w, .err)
